@@ -561,7 +561,7 @@ def build_cases(ctx):
     for es in g4:
         a = mk_matrix(4, 4, es, weights_for(rng, es, rng.choice(['ones', 'int', 'dyadic'])))
         subs = list(graphs.nonempty_subsets(4))
-        scs += square_scenarios(rng, a, rng.sample(subs, 2 if quick else 4), n_iters=(1, 2, 3, 5), ctx=ctx)
+        scs += square_scenarios(rng, a, rng.sample(subs, 2 if quick else 4), n_iters=(1, 2, 3, 5, 30), ctx=ctx)
         ctx.count('digraph:n=4')
     if not quick:
         for _ in range(2000):
@@ -578,11 +578,21 @@ def build_cases(ctx):
             continue
         kind = name.rstrip('0123456789')
         und = kind in graphs.UNDIRECTED_KINDS
-        a = mk_matrix(n, n, es, weights_for(rng, es, rng.choice(['ones', 'int', 'dyadic']), symmetric=und))
+        wmode = rng.choice(['ones', 'int', 'dyadic'])
+        a = mk_matrix(n, n, es, weights_for(rng, es, wmode, symmetric=und))
+        if wmode != 'dyadic' and rng.random() < 0.3:
+            a = a.astype(bool if wmode == 'ones' else int)
+            ctx.count('dtype:' + str(a.dtype))
         if rng.random() < 0.3:
             a = graphs.unsorted_copy(a, rng)
         subs = [sorted(rng.sample(range(n), rng.randint(1, max(1, n // 2)))) for _ in range(2)]
-        scs += square_scenarios(rng, a, subs, n_iters=(1, 2, 3, 4, 7, 12, 20), ctx=ctx)
+        new = square_scenarios(rng, a, subs, n_iters=(1, 2, 3, 4, 7, 12, 20), ctx=ctx)
+        if rng.random() < 0.15:
+            cont = rng.choice(['dense', 'coo', 'csc', 'lil'])
+            for sc in new:
+                sc['container'] = cont
+            ctx.count('container:' + cont)
+        scs += new
         ctx.count('structured:' + kind)
     # 4. bipartite
     shapes = [(1, 1), (1, 2), (2, 1), (2, 2), (2, 3), (3, 2)] + ([] if quick else [(3, 3), (3, 4), (1, 4)])
